@@ -216,13 +216,16 @@ def singular_power_helper(mc):
     # .. and it is called on a selection of the elements (self[mask].helper(p))
     on_selection = {n.func.attr for n in ast.walk(r[1]) if isinstance(n, ast.Call) and isinstance(n.func, ast.Attribute)
                     and isinstance(n.func.value, ast.Subscript)}
-    cands = []
-    for nm in sorted(called_names(r[1]) & on_selection):
-        q = ci.lookup(nm)
-        if q is None or q[0] != 'method' or nm in ('log', 'exp', 'mod_c', 'norm', 'conjugate'):
-            continue
-        if len(q[1].args.args) == 2:
-            cands.append(nm)
+    def one_arg_methods(names):
+        out = []
+        for nm in sorted(names):
+            q = ci.lookup(nm)
+            if q is None or q[0] != 'method' or nm in ('log', 'exp', 'mod_c', 'norm', 'conjugate'):
+                continue
+            if len(q[1].args.args) == 2:
+                out.append(nm)
+        return out
+    cands = one_arg_methods(called_names(r[1]) & on_selection) or one_arg_methods(called_names(r[1]))
     if len(cands) != 1:
         raise AnalysisError('anchor vanished: the helper of Bicomplex.__pow__ for non invertible elements (candidates %s)' % cands)
     return cands[0]
@@ -685,7 +688,12 @@ def powers(ctx, mc):
     z1, z2, p = Poly.sym('z1'), Poly.sym('z2'), Poly.sym('p')
     Z = bic(I, z1, z2)
     try:
-        got = comps(I.getattr(Z, singular_power_helper(mc))(p))
+        helper = singular_power_helper(mc)
+    except AnalysisError as exc:
+        rep.undecided('R-POW', 'multicomplex.Bicomplex.__pow__', exc, '_pow_singular')
+        return
+    try:
+        got = comps(I.getattr(Z, helper)(p))
         fm = ndarr.s_pow(z1 - I_ * z2, p)
         fp = ndarr.s_pow(z1 + I_ * z2, p)
         want = ((fm + fp) * HALF, (fm - fp) * HALF * I_)
@@ -771,10 +779,20 @@ class FW(object):
         return lambda *a, **k: fn(self, *a, **k)
 
 
+class NonHolomorphic(Exception):
+    """components handed to Bicomplex(..) that depend on the complex conjugates of the components of the argument"""
+
+
+_REAL_PARTS = {'z1': ('z1r', 'z1i'), 'z2': ('z2r', 'z2i')}
+
+
 class PV(object):
-    """A component level expression inside a derived function: an exp-polynomial in the two components (z1, z2) of one
-    formal value `base`.  Lets a method be written through shared component factors (cos(z1), sinh(z2), ..) - when such
-    expressions are wrapped into a Bicomplex again, the pair is recognised as one of the elementary functions of `base`."""
+    """A component level expression inside a derived function: an expression in the two components (z1, z2) of one
+    formal value `base`.  Lets a method be written through shared component factors (cos(z1), sinh(z2), ..) or through
+    rational component formulas: when such expressions are wrapped into a Bicomplex again, the pair is recognised as an
+    elementary or rational function of `base`.  Real / imaginary part, conjugate and modulus of a rational component
+    expression are formed over the real and imaginary parts of z1 and z2 (four real symbols); a pair that then still depends
+    on them in a way no function of z1, z2 alone does is not a function of the bicomplex argument (NonHolomorphic)."""
     is_elem_ = True
 
     def __init__(self, base, poly):
@@ -785,8 +803,8 @@ class PV(object):
             if o.base is not self.base:
                 raise AnalysisError('component expressions of two different values combined')
             return o.poly
-        if isinstance(o, (int, Fr, Poly)):
-            return Poly.of(o)
+        if isinstance(o, (int, Fr, Poly, Rat)):
+            return o if isinstance(o, (Poly, Rat)) else Poly.of(o)
         raise AnalysisError('component expression combined with %r' % (o,))
 
     def __add__(self, o): return PV(self.base, self.poly + self._co(o))
@@ -795,15 +813,62 @@ class PV(object):
     def __rsub__(self, o): return PV(self.base, self._co(o) - self.poly)
     def __mul__(self, o): return PV(self.base, self.poly * self._co(o))
     __rmul__ = __mul__
+    def __truediv__(self, o): return PV(self.base, ndarr.s_div(self.poly, self._co(o)))
+    def __rtruediv__(self, o): return PV(self.base, ndarr.s_div(self._co(o), self.poly))
     def __neg__(self): return PV(self.base, -self.poly)
+
+    def __pow__(self, e):
+        if isinstance(e, PV):
+            raise AnalysisError('component expression as an exponent')
+        return PV(self.base, ndarr.s_pow(self.poly, e))
+
+    # ---- non holomorphic operations: over the real and imaginary parts of the components
+    def _over_reals(self):
+        p = self.poly
+        names = p.atoms() if hasattr(p, 'atoms') else set()
+        known = {'z1', 'z2', 'z1r', 'z1i', 'z2r', 'z2i'}
+        if any(a not in known for a in names):
+            raise AnalysisError('real / imaginary part of the component expression %r' % (p,))
+        sub = {z: Poly.sym(r) + Poly.const(Z8.I) * Poly.sym(i) for z, (r, i) in _REAL_PARTS.items()}
+        return p.subs(sub) if names & set(sub) else p
+
+    def conj_(self):
+        return PV(self.base, _conj(self._over_reals()))
+
+    def real_(self):
+        p = self._over_reals()
+        return PV(self.base, (p + _conj(p)) * HALF)
+
+    def imag_(self):
+        p = self._over_reals()
+        return PV(self.base, (p - _conj(p)) * HALF * (-Poly.const(Z8.I)))
+
+    def abs_(self):
+        p = self._over_reals()
+        return PV(self.base, ndarr.s_pow(p * _conj(p), Fr(1, 2)))
+
+    real = property(lambda self: self.real_())
+    imag = property(lambda self: self.imag_())
+
+    def conjugate(self):
+        return self.conj_()
+    conj = conjugate
 
     def __repr__(self):
         return 'PV(%r)' % (self.poly,)
 
 
+def _conj(p):
+    """conjugate of an expression all of whose symbols are real"""
+    if isinstance(p, Rat):
+        return Rat.make(p.n.conj(), p.d.conj())
+    return Poly.of(p).conj()
+
+
 def recognise_components(a, b):
-    """FW value of Bicomplex(a, b) for component expressions a, b of one base: f(base) for the elementary f whose
-    idempotent components they are; None when they are none of the known ones."""
+    """FW value of Bicomplex(a, b) for component expressions a, b of one base: f(base) for the elementary or rational f whose
+    idempotent components they are; None when they are none of the known ones; NonHolomorphic when they are rational but
+    no function of the bicomplex value at all."""
     base = a.base
     z1, z2 = Poly.sym('z1'), Poly.sym('z2')
     for name in ('sin', 'cos', 'sinh', 'cosh', 'exp'):
@@ -815,7 +880,39 @@ def recognise_components(a, b):
         return base.exp() - 1
     if same(a.poly, z1) and same(b.poly, z2):
         return base
-    return None
+    return recognise_rational(base, a.poly, b.poly)
+
+
+def recognise_rational(base, A, B):
+    """f(w) = e1 f(z1 - i z2) + e2 f(z1 + i z2): with u = z1 - i z2 and v = z1 + i z2 the components (A, B) of a function of
+    the bicomplex value satisfy A - iB = g(u) and A + iB = g(v) for one and the same g"""
+    names = set()
+    for p in (A, B):
+        names |= p.atoms() if hasattr(p, 'atoms') else set()
+    if not names <= {'z1', 'z2', 'z1r', 'z1i', 'z2r', 'z2i'}:
+        return None
+    I1 = Poly.const(Z8.I)
+    u, v = Poly.sym('u'), Poly.sym('v')
+    uc, vc = Poly.sym('uc'), Poly.sym('vc')
+    z1, z2 = (u + v) * HALF, (v - u) * HALF * (-I1)
+    z1c, z2c = (uc + vc) * HALF, (vc - uc) * HALF * I1           # conjugates: conj(u) = conj(z1) + i conj(z2) ..
+    sub = {'z1': z1, 'z2': z2,
+           'z1r': (z1 + z1c) * HALF, 'z1i': (z1 - z1c) * HALF * (-I1),
+           'z2r': (z2 + z2c) * HALF, 'z2i': (z2 - z2c) * HALF * (-I1)}
+    try:
+        gu = (A - I1 * B).subs(sub) if hasattr(A - I1 * B, 'subs') else A - I1 * B
+        gv = (A + I1 * B).subs(sub) if hasattr(A + I1 * B, 'subs') else A + I1 * B
+    except AlgebraError:
+        return None
+    au = gu.atoms() if hasattr(gu, 'atoms') else set()
+    av = gv.atoms() if hasattr(gv, 'atoms') else set()
+    if (au | av) & {'uc', 'vc'} or 'v' in au or 'u' in av:
+        raise NonHolomorphic('the components depend on %s' % sorted((au | av) - {'u', 'v'} or (au | av)))
+    g_from_v = gv.subs({'v': u}) if hasattr(gv, 'subs') else gv
+    if not same(gu, g_from_v):
+        raise NonHolomorphic('the two idempotent components are different functions: %r and %r' % (gu, g_from_v))
+    val = gu.subs({'u': base.val}) if hasattr(gu, 'subs') else gu
+    return FW(val)
 
 
 PRIMS = ('sin', 'cos', 'sinh', 'cosh', 'exp', 'log', '__pow__', '__rpow__', '__add__', '__radd__', '__sub__', '__rsub__',
@@ -831,6 +928,10 @@ def formal_level(ctx, mc):
         if isinstance(x, FW):
             return getattr(x, name)() if hasattr(x, name) else x.fn(name)
         if isinstance(x, PV):
+            if name == 'sqrt':
+                return PV(x.base, ndarr.s_pow(x.poly, Fr(1, 2)))
+            if name in ('abs', 'absolute', 'real', 'imag', 'conj', 'conjugate'):
+                return {'abs': x.abs_, 'absolute': x.abs_, 'real': x.real_, 'imag': x.imag_}.get(name, x.conj_)()
             r = exppoly_ufunc(name, x.poly)
             if r is NotImplemented:
                 raise AnalysisError('np.%s of a component expression' % name)
@@ -928,6 +1029,9 @@ def formal_level(ctx, mc):
                 fact = {'formal_value': repr(got.val)[:240]}
             except InterpRaise as exc:
                 ok, fact, want_s = False, {'raises': exc.exc_name, 'message': exc.msg[:100]}, ''
+            except NonHolomorphic as exc:
+                ok, fact = False, {'not_a_function_of_the_bicomplex_argument': str(exc)[:200]}
+                want_s = repr(want.val) if want is not None else 'the inverse function'
             rep.check(ok, rule, 'multicomplex.Bicomplex.%s' % name, where_of(mc, name), fact,
                       'equals %s' % want_s[:200], name, key='derived %s' % name)
     finally:
